@@ -1,6 +1,8 @@
 """single source for MANIFEST.json (tools_gen_manifest.py)"""
 NOTES = ('Contract-based deductive verification of the real code, see DESIGN.md. Exit codes: 0 held / 1 VIOLATION / '
-         '2 UNDECIDED (solver unknown, out of subset) / 3 checker fault. Known findings: known_findings.json.')
+         '2 UNDECIDED (solver unknown, unit over its budget, or out of the verified subset without a bounded stand-in) / 3 checker fault. '
+         'A unit that leaves the verified subset but whose bounded native stand-in ran and held is reported as BOUNDED-ONLY (labelled in the evidence, '
+         'never counted as proved) and does not raise the exit code. Known findings: known_findings.json.')
 
 NOT_APPLICABLE = {}
 
